@@ -28,6 +28,9 @@ const (
 
 type rootKey struct{}
 
+// number of root contexts the harness owns (ids 1..nRoots; 0 is the nil context)
+const nRoots = 5
+
 // scripted back-off
 type scriptBO struct {
 	durs  []uint64
@@ -93,6 +96,10 @@ type sys struct {
 	realBO   bool
 	needTick bool
 	maxFail  int // > 0: at most that many error outcomes are generated in this history
+	cur      uint64 // the root context last passed to SetContext (0 = nil)
+	before   uint64 // cur before the event being executed
+	deadRoot []bool // root contexts cancelled by their owner (event 18)
+	postCanc int    // > 0: a root was just cancelled: favour API calls, WaitExited and retry timers for that many events
 	nFail    int
 }
 
@@ -163,7 +170,8 @@ func newSys(w *hist.W, cfg []uint64) *sys {
 	}
 	s.roots = []context.Context{nil}
 	s.cancels = []context.CancelFunc{nil}
-	for i := 1; i <= 3; i++ {
+	s.deadRoot = make([]bool, nRoots+1)
+	for i := 1; i <= nRoots; i++ {
 		ctx, cancel := context.WithCancel(context.WithValue(context.Background(), rootKey{}, uint64(i)))
 		s.roots = append(s.roots, ctx)
 		s.cancels = append(s.cancels, cancel)
@@ -309,13 +317,15 @@ func (s *sys) setContext(c uint64, restart bool) bool {
 // exec applies one event; ok=false if not applicable now.  It may rewrite the event (the select choice of event 8).
 func (s *sys) exec(ev []uint64) (obs []uint64, ok bool) {
 	var rets []uint64
+	s.before = s.cur
 	switch ev[0] {
 	case 1:
-		if ev[1] > 3 {
+		if ev[1] > nRoots {
 			return nil, false
 		}
 		var ch bool
 		s.api(func() { ch = s.setContext(ev[1], ev[2] == 1) })
+		s.cur = ev[1]
 		rets = []uint64{b2u(ch)}
 	case 2:
 		if s.variant {
@@ -525,6 +535,14 @@ func (s *sys) exec(ev []uint64) (obs []uint64, ok bool) {
 			d.errCh <- errOf(ev[2])
 		}
 		synctest.Wait()
+	case 18:
+		// the owner of root context ev[1] cancels it; the container is not told
+		if ev[1] == 0 || ev[1] > nRoots {
+			return nil, false
+		}
+		s.cancels[ev[1]]()
+		s.deadRoot[ev[1]] = true
+		synctest.Wait()
 	default:
 		return nil, false
 	}
@@ -558,6 +576,27 @@ func (s *sys) teardown() {
 }
 
 func pick(r *rand.Rand, xs []int) int { return xs[r.IntN(len(xs))] }
+
+// pickRoot chooses the argument of SetContext: nil, one of the first two roots, or (a quarter of the time) any root,
+// cancelled ones included
+func (s *sys) pickRoot(r *rand.Rand) uint64 {
+	if r.IntN(4) == 0 {
+		return 1 + uint64(r.IntN(nRoots))
+	}
+	c := uint64(r.IntN(3))
+	if r.IntN(3) > 0 && c == 0 {
+		c = 1
+	}
+	if c != 0 && s.deadRoot[c] && r.IntN(3) > 0 {
+		// prefer a root that is still alive
+		for d := uint64(1); d <= nRoots; d++ {
+			if !s.deadRoot[d] {
+				return d
+			}
+		}
+	}
+	return c
+}
 
 // gen picks the next event among those the implementation allows now.
 func (s *sys) gen(r *rand.Rand, maxInst int) []uint64 {
@@ -604,6 +643,53 @@ func (s *sys) gen(r *rand.Rand, maxInst int) []uint64 {
 	}
 	for tries := 0; tries < 200; tries++ {
 		x := r.IntN(100)
+		if x == 99 || r.IntN(50) == 0 {
+			// the owner cancels a root context: mostly the one the container was given last
+			var live []uint64
+			for c := uint64(1); c <= nRoots; c++ {
+				if !s.deadRoot[c] {
+					live = append(live, c)
+				}
+			}
+			if len(live) > 2 {
+				c := live[r.IntN(len(live))]
+				if s.cur != 0 && !s.deadRoot[s.cur] && r.IntN(3) > 0 {
+					c = s.cur
+				}
+				s.postCanc = 8
+				return []uint64{18, c}
+			}
+		}
+		if s.postCanc > 0 && r.IntN(2) == 0 {
+			// right after a cancellation: every kind of API call, WaitExited and the retry timers
+			s.postCanc--
+			switch y := r.IntN(9); {
+			case y == 0 && room:
+				return []uint64{1, s.pickRoot(r), uint64(r.IntN(2))}
+			case y == 1 && room:
+				if s.variant {
+					switch r.IntN(3) {
+					case 0:
+						return []uint64{6, uint64(r.IntN(3))}
+					case 1:
+						return []uint64{5, uint64(r.IntN(5))}
+					default:
+						return []uint64{4, uint64(r.IntN(4))}
+					}
+				}
+				return []uint64{2, uint64(r.IntN(4))}
+			case y == 2 && room:
+				return []uint64{3}
+			case y == 3 && len(s.waiters) < 3:
+				return []uint64{13, uint64(r.IntN(2))}
+			case y == 4 && len(wgate) > 0:
+				return []uint64{14, uint64(pick(r, wgate))}
+			case y == 5 && nt > 0:
+				return []uint64{12, uint64(r.IntN(nt))}
+			case y == 6 && !s.realBO:
+				return []uint64{11, []uint64{100, 150, 300}[r.IntN(3)]}
+			}
+		}
 		if len(exitp) > 0 {
 			// an instance is parked after its bookkeeping section: let API calls race with its exit callbacks,
 			// but do not run WaitExited sections meanwhile (the monitor's reference machine learns of the exit from the report)
@@ -616,11 +702,7 @@ func (s *sys) gen(r *rand.Rand, maxInst int) []uint64 {
 		}
 		switch {
 		case x < 10 && room:
-			c := uint64(r.IntN(3))
-			if r.IntN(3) > 0 && c == 0 {
-				c = 1
-			}
-			return []uint64{1, c, uint64(r.IntN(2))}
+			return []uint64{1, s.pickRoot(r), uint64(r.IntN(2))}
 		case x < 18 && room:
 			if s.variant {
 				switch r.IntN(4) {
@@ -697,8 +779,12 @@ func (s *sys) gen(r *rand.Rand, maxInst int) []uint64 {
 func (s *sys) count(ev, obs []uint64) {
 	names := map[uint64]string{1: "setcontext", 2: "setroutine", 3: "restart", 4: "setstate", 5: "swapvalue", 6: "setstateroutine",
 		7: "getstate", 8: "proceed", 9: "return", 10: "bookkeep", 11: "advance", 12: "timercb", 13: "waitexited", 14: "waitsection",
-		15: "waitcancel", 16: "waiterrch", 17: "leave_exit_gate"}
+		15: "waitcancel", 16: "waiterrch", 17: "leave_exit_gate", 18: "cancelroot"}
 	s.w.Count("ev."+names[ev[0]], 1)
+	if s.before != 0 && s.deadRoot[s.before] && ev[0] != 18 {
+		// the root context the container was given last has been cancelled by its owner
+		s.w.Count("rootcancelled."+names[ev[0]], 1)
+	}
 	inUser, blocked := 0, 0
 	for _, a := range s.insts {
 		if a.InUser() != 0 {
